@@ -63,8 +63,17 @@ bool check_range(CaseResult &res, const std::vector<K> &keys, const K &q, const 
 /// In 1 case out of 5 the index under test is not freshly constructed: an object already holding an index over OTHER generated data
 /// (large and bimodal for 64-bit keys in half of these cases) is move- or copy-assigned the index of the case's data first. The
 /// search contract is about the data an object holds now, whatever it held before.
+/// A second object of the same class over other keys (the "prior" content), built AFTER the index under test and alive while that one
+/// is queried; it is queried itself afterwards.  An object's answers may depend on nothing but its own data.
 template<typename Index, typename K>
-std::unique_ptr<Index> build_maybe_over_prior(TapeReader &t, const GenOpts &o, const std::vector<K> &keys, CaseResult &res, bool execute) {
+struct Bystander {
+    std::unique_ptr<Index> idx;
+    std::vector<K> keys;
+};
+
+template<typename Index, typename K>
+std::unique_ptr<Index> build_maybe_over_prior(TapeReader &t, const GenOpts &o, const std::vector<K> &keys, CaseResult &res, bool execute,
+                                              Bystander<Index, K> *by = nullptr) {
     bool over_prior = t.chance(1, 5);
     if (!over_prior) return execute ? std::unique_ptr<Index>(new Index(keys.begin(), keys.end())) : nullptr;
     GenOpts o2 = o;
@@ -81,6 +90,7 @@ std::unique_ptr<Index> build_maybe_over_prior(TapeReader &t, const GenOpts &o, c
     const int procs_before = g_fake_procs;
     std::vector<K> prior = gen_keys<K>(t, o2, m2);
     bool by_copy = t.chance(1, 2);
+    bool keep_bystander = t.chance(1, 2);
     g_fake_procs = procs_before;
     if (!execute) return nullptr;
     const K cap = std::numeric_limits<K>::max() - 1;
@@ -92,7 +102,30 @@ std::unique_ptr<Index> build_maybe_over_prior(TapeReader &t, const GenOpts &o, c
     } else
         *obj = Index(keys.begin(), keys.end());
     res.label(by_copy ? "assigned_over_prior_content_by_copy" : "assigned_over_prior_content_by_move");
+    if (by && keep_bystander && prior.size() <= (size_t(1) << 20)) {
+        by->idx.reset(new Index(prior.begin(), prior.end()));
+        by->keys = std::move(prior);
+        res.label("bystander_index_alive");
+    }
     return obj;
+}
+
+template<typename Index, typename K>
+void check_bystander(CaseResult &res, Bystander<Index, K> &by, size_t eps, const std::vector<K> &queries, bool mem) {
+    if (!by.idx || !res.ok) return;
+    RangeStats st;
+    size_t done = 0;
+    auto one = [&](const K &q) {
+        pgm::ApproxPos r = by.idx->search(q);
+        if (mem) return true;
+        if (check_range(res, by.keys, q, r, eps, st)) return true;
+        res.msg = "second index (built after, alive with the first): " + res.msg;
+        return false;
+    };
+    for (const K &q: queries)
+        if (done++ >= 150 || !one(q)) break;
+    for (size_t i = 0; res.ok && i < by.keys.size(); i += 1 + by.keys.size() / 150)
+        if (!one(by.keys[i])) break;
 }
 
 inline void common_labels(CaseResult &res, const KeyMeta &meta) {
@@ -159,8 +192,9 @@ CaseResult run_compressed(const RunCtx &ctx, TapeReader &t, unsigned size_hint) 
     vf_set_threads(meta.threads);
     using Index = pgm::CompressedPGMIndex<K, Eps, ER, F>;
     std::unique_ptr<Index> idx;
+    Bystander<Index, K> bystander;
     try {
-        idx = build_maybe_over_prior<Index, K>(t, o, keys, res, ctx.execute);
+        idx = build_maybe_over_prior<Index, K>(t, o, keys, res, ctx.execute, &bystander);
     } catch (const std::exception &e) {
         res.fail(std::string("construction threw on in-domain input: ") + e.what());
         return res;
@@ -193,6 +227,7 @@ CaseResult run_compressed(const RunCtx &ctx, TapeReader &t, unsigned size_hint) 
         }
         if (!check_range(res, keys, q, r, Eps, st)) break;
     }
+    check_bystander(res, bystander, Eps, queries, mem);
     res.sum("queries", st.nq);
     res.nontrivial = segs >= 3 && st.absent >= 1;
     if (mem) res.nontrivial = keys.size() <= 3 || meta.starts_lowest || meta.top_reached || meta.chunks > 1;
@@ -276,8 +311,9 @@ CaseResult run_bucketing(const RunCtx &ctx, TapeReader &t, unsigned size_hint) {
     vf_set_threads(meta.threads);
     using Index = BucketProbe<K, Eps, TLS, TLB, F>;
     std::unique_ptr<Index> idx;
+    Bystander<Index, K> bystander;
     try {
-        idx = build_maybe_over_prior<Index, K>(t, o, keys, res, ctx.execute);
+        idx = build_maybe_over_prior<Index, K>(t, o, keys, res, ctx.execute, &bystander);
         if (!ctx.execute) return res;
     } catch (const std::invalid_argument &e) {
         if (TLB != 0 && std::string(e.what()).find("TopLevelBitSize") != std::string::npos) {
@@ -352,6 +388,7 @@ CaseResult run_bucketing(const RunCtx &ctx, TapeReader &t, unsigned size_hint) {
             }
         }
     }
+    check_bystander(res, bystander, Eps, queries, mem);
     res.sum("queries", st.nq);
     res.nontrivial = segs >= 4 && st.absent >= 1 && empty_bucket && boundary_query;
     if (mem) res.nontrivial = keys.size() <= 3 || meta.starts_lowest || meta.top_reached || meta.chunks > 1;
@@ -397,8 +434,9 @@ CaseResult run_ef(const RunCtx &ctx, TapeReader &t, unsigned size_hint) {
     vf_set_threads(meta.threads);
     using Index = EFProbe<K, Eps, F>;
     std::unique_ptr<Index> idx;
+    Bystander<Index, K> bystander;
     try {
-        idx = build_maybe_over_prior<Index, K>(t, o, keys, res, ctx.execute);
+        idx = build_maybe_over_prior<Index, K>(t, o, keys, res, ctx.execute, &bystander);
     } catch (const std::exception &e) {
         res.fail(std::string("construction threw on in-domain input: ") + e.what());
         return res;
@@ -430,6 +468,7 @@ CaseResult run_ef(const RunCtx &ctx, TapeReader &t, unsigned size_hint) {
         else if (q > keys.back()) beyond_universe = true;
         else between = true;
     }
+    check_bystander(res, bystander, Eps, queries, mem);
     res.sum("queries", st.nq);
     res.nontrivial = segs >= 4 && st.absent >= 1 && below_first && beyond_universe && between;
     if (mem) res.nontrivial = keys.size() <= 3 || meta.starts_lowest || meta.top_reached || meta.chunks > 1;
